@@ -1,5 +1,6 @@
 import ObiVerif.Model.Lcs
 import ObiVerif.Lemmas.Lcs
+import ObiVerif.Lemmas.LcsBand
 /-!
 # C09 — LCS and one-difference kernels are exact within their error bound (property theorems)
 
@@ -113,21 +114,17 @@ theorem fastLCS_within_bound_is_real (a b : Seq) (e : Int) (s l : Nat) (hlen : a
     ∃ s' l', Ali samenuc a b s' l' ∧ (l' : Int) - s' ≤ e :=
   ⟨s, l, bandLCS_sound a b e s l hlen h, hb⟩
 
-/- FULL STATEMENT of `fastLCS_exact` (DESIGN §4 C09), not proved in this generality:
+/-! ### Exactness
 
-     theorem fastLCS_exact (a b : Seq) (e : Int) (hlen : a.length + b.length + 1 ≤ 30000)
-         (h : e = -1 ∨ ((lcsDP samenuc a b).2 : Int) - (lcsDP samenuc a b).1 ≤ e) :
-         bandLCS a b e = some (lcsDP samenuc a b)
-     theorem fastLCS_beyond (…) (h : e ≠ -1 ∧ e < l_opt - lcs) :
-         bandLCS a b e = none ∨ ∃ s l, bandLCS a b e = some (s, l) ∧ e < l - s
-
-   What is missing is the band-containment argument for a NARROW band (an optimal path with at most `e`
-   differences stays strictly inside the diagonals `(-2·extra, 2·(delta+extra))`, so the cells `_setout` marks on
-   the two border diagonals are never on it). Proved below: the statement for every bound under which the band
-   covers the whole matrix — always the case for `e = -1` (no bound), and for explicit bounds
-   `e ≥ max(lA/2, lA - lB/2)` roughly (`wideBand`). For narrow bands the property is covered by `fastLCS_sound`
-   (nothing spurious) and, for exactness, by the oracle of the correspondence check only (exhaustive pairs up to
-   length 4/5/6 × bounds -1..4, random pairs to 500 bases). -/
+`fastLCS_exact` / `fastLCS_beyond` below are the full statements of DESIGN §4 C09. The band-containment argument
+is in `Lemmas/LcsBand.lean`: an alignment with `L` columns of `A` (columns, the longer sequence) and `B` has
+`L - |A|` vertical and `L - |B|` horizontal gap columns, so all its prefixes end on diagonals `j - i` in
+`[-(L - |A|), L - |B|]` (`Ali.toIn`); every cell of the banded matrix is, as a packed word, at least every
+alignment of its two prefixes that stays strictly between the two border diagonals `-2·extra` and
+`2·(delta+extra)` that `_setout` marks (`bandCell_lb`, carried through the rows together with the soundness
+invariant); with at most `e` differences the optimum has at most `(e - delta)/2 < 2·extra` vertical and
+`(e + delta)/2 < 2·(delta+extra)` horizontal gaps. `fastLCS_exact_partial` (the earlier statement, for bands that
+cover the whole matrix) is kept. -/
 
 /-- **`fastLCS_exact_partial`** — with no bound (`e = -1`), or with a bound whose band covers the whole matrix,
 the kernel returns exactly (LCS length, length of the shortest alignment achieving it) = the textbook optimum
@@ -147,6 +144,73 @@ theorem fastLCS_symm_unbounded (a b : Seq) (hlen : a.length + b.length + 1 ≤ 3
     bandLCS a b (-1) = bandLCS b a (-1) := by
   rw [fastLCS_exact_partial a b (-1) hlen (.inl rfl), fastLCS_exact_partial b a (-1) (by omega) (.inl rfl),
     lcsDP_samenuc_swap]
+
+/-- **`fastLCS_exact_cover`** — the sharpest form proved: for every explicit bound `e` (any integer other than
+the "no bound" value `-1`), the kernel returns exactly the optimum as soon as `max(|a|, |b|) ≤ LCS + e`
+(then the optimal alignment has at most `e` gap columns on the longer sequence's side and cannot leave the band).
+All sequences with `|a| + |b| < 30000`. -/
+theorem fastLCS_exact_cover (a b : Seq) (e : Int) (hlen : a.length + b.length + 1 ≤ 30000) (he : e ≠ -1)
+    (h : ((max a.length b.length : Nat) : Int) ≤ ((lcsDP samenuc a b).1 : Int) + e) :
+    bandLCS a b e = some (lcsDP samenuc a b) :=
+  bandLCS_exact_band a b e hlen he h
+
+/-- **`fastLCS_exact`** (full statement) — with no bound (`e = -1`), or whenever the number of differences implied
+by the optimum (length of the shortest alignment achieving the LCS minus the LCS length, see `lcsDP_is_lcs`)
+does not exceed the requested bound `e`, the banded kernel returns exactly (LCS length, length of the shortest
+alignment achieving it). All sequences with `|a| + |b| < 30000`, every `e` (a negative `e ≠ -1` makes the
+hypothesis false). The packed-cell arithmetic, the sentinels `_out`/`_notavail`, the `_setout` marking of the two
+border diagonals and the three-way `uint64` selection are all part of what is proved. -/
+theorem fastLCS_exact (a b : Seq) (e : Int) (hlen : a.length + b.length + 1 ≤ 30000)
+    (h : e = -1 ∨ ((lcsDP samenuc a b).2 : Int) - ((lcsDP samenuc a b).1 : Int) ≤ e) :
+    bandLCS a b e = some (lcsDP samenuc a b) := by
+  by_cases he : e = -1
+  · subst he; exact bandLCS_exact_unbounded a b hlen
+  · rcases h with h | h
+    · exact absurd h he
+    · exact bandLCS_exact_band a b e hlen he (diff_le_imp_cover a b e h)
+
+/-- **`fastLCS_beyond`** (full statement) — when the optimum has more differences than the explicit bound `e`
+(`e ≠ -1`; negative bounds included), the kernel answers "not found" (`none` = (-1, -1)) or a pair `(s, l)` that
+is itself beyond the bound (`l - s > e`): never a spurious within-bound answer. (`(s, l)` is then the score and
+length of an actual alignment by `fastLCS_sound`, possibly not the optimum — see the example below.) -/
+theorem fastLCS_beyond (a b : Seq) (e : Int) (hlen : a.length + b.length + 1 ≤ 30000)
+    (h : e ≠ -1 ∧ e < ((lcsDP samenuc a b).2 : Int) - ((lcsDP samenuc a b).1 : Int)) :
+    bandLCS a b e = none ∨ ∃ s l, bandLCS a b e = some (s, l) ∧ e < (l : Int) - (s : Int) :=
+  bandLCS_beyond a b e hlen h.1 h.2
+
+/-- **`fastLCS_decides_bound`** — the two statements combined: for an explicit bound `e`, the kernel gives an
+answer with at most `e` differences **iff** the sequences have an optimal alignment with at most `e` differences,
+and such an answer is the optimum. -/
+theorem fastLCS_decides_bound (a b : Seq) (e : Int) (hlen : a.length + b.length + 1 ≤ 30000) (he : e ≠ -1) :
+    ((∃ s l, bandLCS a b e = some (s, l) ∧ (l : Int) - (s : Int) ≤ e) ↔
+      ((lcsDP samenuc a b).2 : Int) - ((lcsDP samenuc a b).1 : Int) ≤ e) ∧
+    (∀ s l, bandLCS a b e = some (s, l) → (l : Int) - (s : Int) ≤ e → (s, l) = lcsDP samenuc a b) := by
+  refine ⟨⟨?_, ?_⟩, fun s l h hb => bandLCS_within_is_opt a b e s l hlen he h hb⟩
+  · rintro ⟨s, l, h, hb⟩
+    have := bandLCS_within_is_opt a b e s l hlen he h hb
+    rw [← this]; exact hb
+  · intro h
+    exact ⟨_, _, fastLCS_exact a b e hlen (.inr h), h⟩
+
+/-- non-vacuity of `fastLCS_exact` / `fastLCS_exact_cover` on a NARROW band (test on one value): "acgtac" against
+"acgtc" with the bound 1 — the band does not cover the matrix (`wideBand` fails), the optimum (5, 6) has one
+difference, and the kernel returns it -/
+example : lcsDP samenuc [97, 99, 103, 116, 97, 99] [97, 99, 103, 116, 99] = (5, 6) ∧
+    ¬ wideBand (max 6 5) (min 6 5) 1 ∧
+    bandLCS [97, 99, 103, 116, 97, 99] [97, 99, 103, 116, 99] 1 = some (5, 6) := by
+  have h1 : lcsDP samenuc [97, 99, 103, 116, 97, 99] [97, 99, 103, 116, 99] = (5, 6) := by decide +kernel
+  refine ⟨h1, by unfold wideBand; decide, ?_⟩
+  rw [fastLCS_exact _ _ 1 (by decide) (.inr (by rw [h1]; decide)), h1]
+
+/-- non-vacuity of `fastLCS_beyond` (test on one value): "aacccc" against "ccaacc" with the bound 0 — the optimum
+(4, 8) has 4 differences; the kernel answers (3, 7), an actual alignment that is not the optimum (the optimal path
+leaves the band) and is itself beyond the bound (4 differences > 0) -/
+example : lcsDP samenuc [97, 97, 99, 99, 99, 99] [99, 99, 97, 97, 99, 99] = (4, 8) ∧
+    bandLCS [97, 97, 99, 99, 99, 99] [99, 99, 97, 97, 99, 99] 0 = some (3, 7) ∧
+    ((0 : Int) ≠ -1 ∧ (0 : Int) < ((lcsDP samenuc [97, 97, 99, 99, 99, 99] [99, 99, 97, 97, 99, 99]).2 : Int) -
+      ((lcsDP samenuc [97, 97, 99, 99, 99, 99] [99, 99, 97, 97, 99, 99]).1 : Int)) := by
+  have h1 : lcsDP samenuc [97, 97, 99, 99, 99, 99] [99, 99, 97, 97, 99, 99] = (4, 8) := by decide +kernel
+  exact ⟨h1, by decide, by decide, by rw [h1]; decide⟩
 
 /-- non-vacuity of `wideBand`: lengths 4 and 3 with the bound 3 -/
 example : wideBand (max 4 3) (min 4 3) 3 := by unfold wideBand; decide
